@@ -21,6 +21,17 @@ let do_sizes () =
   pzs "sizes" (sizes_list n nbk sps padding rp);
   print_string "end\n"
 
+(* gsizes <id> <nz> z... <nq> q... <nb> b... : the sizes GENERATED from main() (Gen_ScalingZ.gen_sizes_list); values in
+   the order of the generated *_index functions (Gen_ScalingZ.info.json lists the names) *)
+let do_gsizes () =
+  let id = next () in
+  let nz = nexti () in let zs = List.init nz (fun _ -> nextz ()) in
+  let nq = nexti () in let qs = nextqs nq in
+  let nb = nexti () in let bs = List.init nb (fun _ -> nexti () <> 0) in
+  Printf.printf "case %s\n" id;
+  pzs "sizes" (gen_sizes_list zs qs bs);
+  print_string "end\n"
+
 (* pad <id> <n> <nb> <nmax> <spacing> <run> buckets... *)
 let do_pad () =
   let id = next () in
@@ -98,5 +109,5 @@ let do_track () =
   print_newline ();
   print_string "end\n"
 
-let () = run_main ["upt", do_upt; "sizes", do_sizes; "pad", do_pad; "fp", do_fp; "f2u", do_f2u;
+let () = run_main ["upt", do_upt; "sizes", do_sizes; "gsizes", do_gsizes; "pad", do_pad; "fp", do_fp; "f2u", do_f2u;
                    "kick", do_kick; "src", do_src; "imp", do_imp; "track", do_track]
